@@ -174,6 +174,12 @@ def r2(ctx: Ctx):
   else:
     ctx.ok(rule, fi, f'store dominated by `{prev} is not None`', st)
   v = st.value
+  if isinstance(v, ast.Name):
+    # `newest = max(previous, new); table[address] = newest`
+    defs = [x.value for x in walk_no_nested(fi.node) if isinstance(x, ast.Assign) and len(x.targets) == 1
+            and isinstance(x.targets[0], ast.Name) and x.targets[0].id == v.id]
+    if len(defs) == 1:
+      v = defs[0]
   ok = (isinstance(v, ast.Call) and unparse(v.func) == 'max'
         and {unparse(a) for a in v.args} == {prev, tparam})
   if ok:
